@@ -23,7 +23,9 @@ U1, U2, U3 = "urn:u1", "urn:u2", "urn:u3"
 TEXTS = [None, "x", " x ", "x  y", "   ", "\t", "\xa0", " \xa0 ", "\n    ", "\n x \n", "&lt;&amp;&#233;", "<![CDATA[<x> ]]>",
          "a<![CDATA[ b ]]> c", "  \n", "\n  ", " \n ", "x\n\ty", "\xa0x", "\r\n", "x\ny", "x\ty z", " a b\tc\nd ",
          "<![CDATA[write &lt; for less]]>", "AT&amp;amp;T", "&amp;gt; x &amp;#38;",
-         "<![CDATA[t\u00e9 < 5 \u00b0C \U0001F600]]>", "\u00e9\U0001F600&#176;"]
+         "<![CDATA[t\u00e9 < 5 \u00b0C \U0001F600]]>", "\u00e9\U0001F600&#176;",
+         # longer than any line width an exporter might wrap at
+         "some words  and more " * 8, " " * 90, "\xa0" * 40 + " " * 60, "x" * 130]
 ATTRS = [["k", "v"], ["k", "a b"], ["k", "&lt;&amp;&quot;"], ["k", ""], ["k", " x "], ["k", "it's &quot;q&quot;"],
          ["xml:lang", "en"], ["xml:space", "preserve"]]
 OPTIONS = [(clean, collapse, lit) for clean in (True, False) for collapse in (True, False)
@@ -315,6 +317,10 @@ def compare_stable(a, b, path, out):
     if by_uri(a) != by_uri(b) or len(a.extras) != len(b.extras):
         bad("extras", dict(a.extras), dict(b.extras))
     if ustrip(a.content) != ustrip(b.content):
+        bad("content", a.content, b.content)
+    elif not a.children and not b.children and (a.content or "") != (b.content or ""):
+        # the text of a childless element is written between its tags without any layout of the exporter's own: whatever
+        # the first import kept (blank-only text, the verbatim text of a literal element, raw text) the second keeps too
         bad("content", a.content, b.content)
     if ustrip(a.tail) != ustrip(b.tail):
         bad("tail", a.tail, b.tail)
